@@ -99,6 +99,7 @@ type FnCtx struct {
 	boundedIters int
 	marks     map[string]*State // mark NAME "text": state before that line
 	matched   map[*Clause]bool  // assert_at / check_at / mark clauses whose line was found
+	unbound   []string          // clauses that could not be bound to the code
 	srcCache  map[string][]string
 	ghost     map[string]Val
 	dry       int
